@@ -20,9 +20,9 @@ func init() {
 		Explanation: "Decided: R14-exhaust — every pattern-VM opcode constant is a case of recursiveVM's dispatch, every pattern node type parsePattern constructs is a case of compilePattern's type switch, and every repeat kind the parser produces has a compile arm (this is what makes the trailing 'should not reach here' unreachable); " +
 			"R14-panics — every explicit panic in package pm carries *pm.Error (Find re-panics anything else), the one raw panic is the exhaustiveness sentinel, and every pm.Find call site in the string library raises its error result; R14-depth — recursiveVM increments its level, tests it against maxRecursionLevel with a raising arm before any recursive call, and every recursive call passes the incremented level; " +
 			"R14-progress — Find's scan position strictly increases on every iteration of its loop; R14-readonly — nothing reachable from Find writes through the subject slice (which aliases the Lua string's bytes through unsafeFastStringToReadOnlyBytes), and that unsafe view is only ever handed to pm.Find or io.Writer.Write. " +
-			"R14-bytes — no function of package pm calls a rune-aware API (character classes are C-locale byte classes). NOT decided: match extents, captures, gsub assembly; run-time slice/index panics inside the matcher (e.g. a back-reference to a still-open capture).",
+			"R14-bytes — no function of package pm calls a rune-aware API (character classes are C-locale byte classes). R14-repl — the replacement-string scanner's one-character lookahead (the %% escape) is guarded by exactly 'the next position exists': neither unguarded (index panic) nor stricter (an escape at the very end of the replacement is left undecoded). NOT decided: match extents, captures, gsub assembly; run-time slice/index panics inside the matcher (e.g. a back-reference to a still-open capture).",
 		Trusted: []string{"io.Writer.Write does not modify its argument (io.Writer contract)"},
-		Rules:   []func(*Ctx){ruleExhaust, rulePmPanics, ruleDepth, ruleProgress, ruleReadonly, rulePmBytes},
+		Rules:   []func(*Ctx){ruleExhaust, rulePmPanics, ruleDepth, ruleProgress, ruleReadonly, rulePmBytes, ruleFlagLookahead},
 	})
 }
 
@@ -268,7 +268,8 @@ func ruleDepth(c *Ctx) {
 	maxLvl, _ := p.intConst("pm", "maxRecursionLevel")
 	var lvl *ssa.Parameter
 	for _, pm := range vm.Params {
-		if pm.Name() == "recLevel" {
+		// the recursion depth is the parameter compared with maxRecursionLevel: the last int parameter
+		if types.Identical(pm.Type(), types.Typ[types.Int]) {
 			lvl = pm
 		}
 	}
@@ -443,9 +444,9 @@ func ruleProgress(c *Ctx) {
 			case *ssa.BinOp:
 				k := vkey(cv)
 				switch {
-				case cv.X == ssa.Value(sp) && strings.HasPrefix(vkey(cv.Y), "len(p:src") && ((cv.Op == token.LEQ && !sense) || (cv.Op == token.GTR && sense)):
+				case cv.X == ssa.Value(sp) && strings.HasPrefix(vkey(cv.Y), "len("+pkeyAt(paramsOfType(fn, "[]byte"), 0)) && ((cv.Op == token.LEQ && !sense) || (cv.Op == token.GTR && sense)):
 					why = "position beyond the end of the subject"
-				case strings.Contains(k, "len(") && strings.Contains(k, "p:limit") && (cv.Op == token.EQL || cv.Op == token.GEQ) && sense:
+				case strings.Contains(k, "len(") && strings.Contains(k, pkeyAt(paramsOfType(fn, "int"), 1)) && (cv.Op == token.EQL || cv.Op == token.GEQ) && sense:
 					why = "match limit reached"
 				}
 			case *ssa.UnOp:
@@ -567,5 +568,113 @@ func ruleReadonly(c *Ctx) {
 			}
 			c.check(okc && n > 0, R, fmt.Sprintf("unsafe-view:%s#%d", fname(fn), countKey(c, R, "uv"+fname(fn))), p.ipos(cl), "the aliasing byte view goes only to pm.Find's subject or io.Writer.Write", "the unsafe byte view of a Lua string flows somewhere other than pm.Find / io.Writer.Write: a write through it would modify an immutable string in place")
 		}
+	}
+}
+
+
+// ruleFlagLookahead: flagScanner.Next decodes "%%" by looking one character ahead. The guard of that
+// read must be exactly Pos+1 <= Length-1: weaker and the read can leave the string, stricter and the
+// escape is not recognised when it ends the replacement string ("%1%%" → "…%%").
+func ruleFlagLookahead(c *Ctx) {
+	const R = "R14-repl"
+	c.floor(R, 1)
+	p := c.P
+	fn := c.need(R, "lua", "(*flagScanner).Next")
+	if fn == nil {
+		return
+	}
+	g := p.G(fn)
+	posF := p.Field("lua", "flagScanner", "Pos")
+	lenF := p.Field("lua", "flagScanner", "Length")
+	strF := p.Field("lua", "flagScanner", "str")
+	n := 0
+	allInstrs(fn, func(in ssa.Instruction) {
+		lk, ok := in.(*ssa.Index) // s[i] on a string
+		if !ok {
+			return
+		}
+		if _, ok := loadsField(lk.X, strF); !ok {
+			return
+		}
+		il := lin(lk.Index)
+		if il.K < 1 || len(il.T) != 1 {
+			return // not a lookahead
+		}
+		var posKey string
+		for k := range il.T {
+			posKey = k
+		}
+		if b, ok := stripConv(lk.Index).(*ssa.BinOp); !ok {
+			return
+		} else if _, ok := loadsField(b.X, posF); !ok {
+			return
+		}
+		n++
+		// strongest bound on Pos - Length from the path condition
+		best, have := int64(0), false
+		for _, cd := range g.CondsAtInstr(in) {
+			b, ok := cd.V.(*ssa.BinOp)
+			if !ok {
+				continue
+			}
+			op := b.Op
+			if !cd.Sense {
+				op = negate(op)
+			}
+			lx, ly := lin(b.X), lin(b.Y)
+			// d = X - Y
+			d := linform{T: map[string]int64{}, K: lx.K - ly.K}
+			for k, v := range lx.T {
+				d.T[k] += v
+			}
+			for k, v := range ly.T {
+				d.T[k] -= v
+			}
+			var lenKey string
+			okShape := len(d.T) == 2 && d.T[posKey] != 0
+			for k, v := range d.T {
+				if v == 0 {
+					okShape = false
+				}
+				if k != posKey {
+					lenKey = k
+				}
+			}
+			if !okShape || !strings.Contains(lenKey, lenF.Name()) {
+				continue
+			}
+			sgn := d.T[posKey] // +1: Pos - Length + K op 0 ; -1: Length - Pos + K op 0
+			var ub int64      // Pos - Length <= ub
+			switch {
+			case sgn == 1 && op == token.LSS:
+				ub = -d.K - 1
+			case sgn == 1 && op == token.LEQ:
+				ub = -d.K
+			case sgn == -1 && op == token.GTR:
+				ub = d.K - 1
+			case sgn == -1 && op == token.GEQ:
+				ub = d.K
+			case sgn == 1 && op == token.NEQ, sgn == -1 && op == token.NEQ:
+				continue
+			default:
+				continue
+			}
+			if !have || ub < best {
+				best, have = ub, true
+			}
+		}
+		key := fmt.Sprintf("flagScanner.Next:lookahead+%d", il.K)
+		want := -il.K - 1 // Pos + K <= Length - 1
+		switch {
+		case !have || best > want:
+			c.bad(R, key, p.ipos(in), fmt.Sprintf("the read of str[Pos+%d] is not guarded by Pos+%d < Length: a replacement string ending in a lone %% indexes past its end", il.K, il.K))
+		case best < want:
+			c.bad(R, key, p.ipos(in), fmt.Sprintf("the guard of str[Pos+%d] is stricter than 'that position exists' (it requires Pos <= Length%+d, the last valid Pos is Length%+d): an escape that ends the replacement string is not decoded (gsub(s, p, \"%%1%%%%\") appends two percent signs)", il.K, best, want))
+		default:
+			c.ok(R, key, p.ipos(in), "guarded by exactly Pos+k < Length")
+		}
+	})
+	if n == 0 {
+		c.und(R, "flagScanner.Next:lookahead", p.pos(fn.Pos()), "no lookahead read of the scanned string found")
 	}
 }
